@@ -176,6 +176,14 @@ RunFrom(s, S, C, goodNmea, fuel) ==
 
 Run(S, C, goodNmea) == RunFrom(InitState, S, C, goodNmea, 6 * Len(S) + 12)
 
+\* a polling caller: after end-of-stream was reported, read() is called again (polls times).  The machine resumes scanning at the
+\* current position: over a file-like stream that is the end; over a socket wrapper it is the start of a tail that an all-or-nothing
+\* read could not complete - the header bytes of the unfinished frame are gone, what follows them is scanned as top-level data
+RECURSIVE RunPoll(_, _, _, _, _)
+RunPoll(s, S, C, goodNmea, polls) ==
+    LET r == RunFrom(s, S, C, goodNmea, 6 * Len(S) + 12) IN
+    IF r.pc = "done" /\ polls > 0 THEN RunPoll([r EXCEPT !.pc = "b1"], S, C, goodNmea, polls - 1) ELSE r
+
 (***************************************************************************)
 (* State predicates (used as invariants by the MC modules)                 *)
 (***************************************************************************)
